@@ -3,6 +3,7 @@
 From NDN Require Import Base.Prelude Base.Utf8 Model.TlvVar Model.Name Model.Tlv Spec.TlvWf.
 From NDN Require Import Proofs.TlvVarProofs Proofs.TlvVarBridge Proofs.TlvSplit Proofs.TlvAssign
   Proofs.TlvRoundtrip Proofs.TlvRoundtrip2 Proofs.TlvMore.
+From NDN Require Import Model.TlvCollect Spec.TlvCollectSpec Proofs.TlvCollectProofs.
 From NDN Require Generated.Schemas.
 Local Open Scope N_scope.
 
@@ -86,6 +87,44 @@ Theorem C08_tie_write_tl_num (v : N) buf (off : nat) :
   Generated.TlvVarGen.write_tl_num (Z.of_N v) buf (Z.of_nat off)
   = Ok (Z.of_nat (tl_size v), splice buf off (tl_enc v)).
 Proof. exact (gen_write_eq v buf off). Qed.
+
+(* "declared field order" under derivation (TlvModelMeta: IncludeBase, overriding): the collected field list of a
+   class is what one gets by pasting the body of every included base (recursively) at the place of its
+   IncludeBase and then keeping every name once -- at the place of its first declaration, with the field of its
+   last declaration.  So no name is encoded twice, no declared name is lost, an override never moves a field,
+   and nothing but this list meets the description. *)
+Theorem C08_collect_is_pasting {A} (b : body A) : collect b = put_all (pasted b) [].
+Proof. exact (collect_is_pasting b). Qed.
+Print Assumptions C08_collect_is_pasting.
+
+Theorem C08_collect_declared_order {A} (b : body A) :
+  map fst (collect b) = firsts (map fst (pasted b)) /\
+  forall n, al_get N.eqb (collect b) n = last_def n (pasted b).
+Proof. exact (collect_meets_spec b). Qed.
+Print Assumptions C08_collect_declared_order.
+
+Theorem C08_collect_names_distinct {A} (b : body A) : NoDup (map fst (collect b)).
+Proof. exact (collect_names_distinct b). Qed.
+Print Assumptions C08_collect_names_distinct.
+
+Theorem C08_collect_names_complete {A} (b : body A) n :
+  In n (map fst (collect b)) <-> In n (map fst (pasted b)).
+Proof. exact (collect_names_complete b n). Qed.
+Print Assumptions C08_collect_names_complete.
+
+Theorem C08_collect_unique {A} (l got1 got2 : list (N * A)) :
+  collected_ok l got1 -> collected_ok l got2 -> got1 = got2.
+Proof. exact (collected_ok_unique l got1 got2). Qed.
+Print Assumptions C08_collect_unique.
+
+(* non-vacuity (the diamond of the documentation, plus an override after the includes):
+   A = [m1]; B1(A) = [A; m1:=2; m4]; B2(A) = [A; m1:=3; m5]; D(B1,B2) = [B2; B1; m5:=6]  ->  m1:=2, m5:=6, m4 *)
+Example C08_collect_example :
+  let a := BOwn 1 1 BNil in
+  let b1 := BIncl a (BOwn 1 2 (BOwn 4 4 BNil)) in
+  let b2 := BIncl a (BOwn 1 3 (BOwn 5 5 BNil)) in
+  collect (BIncl b2 (BIncl b1 (BOwn 5 6 BNil))) = [(1, 2); (5, 6); (4, 4)].
+Proof. vm_compute. reflexivity. Qed.
 
 (* non-vacuity: a nested model with a repeated sub-model, a map and a text field *)
 Example C08_example :
